@@ -1,3 +1,3 @@
 SPECIFICATION Spec
-INVARIANTS TermReadOneSnapshot ReadIsPrefix ReadSeesReturned ReadsMonotonic ReaderIsPrefix ReaderStable
+INVARIANTS ReadsSucceed TermReadOneSnapshot ReadIsPrefix ReadSeesReturned ReadsMonotonic ReaderIsPrefix ReaderStable
 CHECK_DEADLOCK FALSE
